@@ -30,15 +30,42 @@ const c19Module = `module m { namespace 'urn:m'; prefix m;
     leaf e { type empty; }
     leaf-list ll { type decimal64 { fraction-digits 3; } ordered-by user; }
     list l { key k; leaf k { type string; } leaf v { type uint32; } }
+    leaf idr { type identityref { base base-id; } }
+    leaf un { type union { type uint8; type identityref { base base-id; } type string; } }
+    leaf-list sl { type string; }
+    container inner { leaf x { type int8; } }
+  }
+  identity base-id;
+  identity local-id { base base-id; }
+}`
+
+const c19Module2 = `module m2 { namespace 'urn:m2'; prefix m2;
+  import m { prefix m; }
+  identity remote-id { base m:base-id; }
+  augment /m:top {
+    container ext {
+      leaf x { type string; }
+      leaf idr2 { type identityref { base m:base-id; } }
+      container deep { leaf y { type uint16; } }
+    }
   }
 }`
 
-func c19Schema() (schema.ModelSet, error) {
+// compiled once, while the package is initialised (shared by all paths)
+var c19MS, c19MSErr = c19Compile()
+
+func c19Schema() (schema.ModelSet, error) { return c19MS, c19MSErr }
+
+func c19Compile() (schema.ModelSet, error) {
 	t, err := parse.Parse("m", c19Module, nil)
 	if err != nil {
 		return nil, err
 	}
-	return compile.CompileParseTrees(nil, map[string]*parse.Tree{"m": t}, compile.FeaturesFromNames(true), false, nil)
+	t2, err := parse.Parse("m2", c19Module2, nil)
+	if err != nil {
+		return nil, err
+	}
+	return compile.CompileParseTrees(nil, map[string]*parse.Tree{"m": t, "m2": t2}, compile.FeaturesFromNames(true), false, nil)
 }
 
 func c19Walk(n datanode.DataNode, prefix string, out *[]string) {
@@ -80,7 +107,7 @@ func VerifH_C19_RoundTrip() {
 		return
 	}
 	var kids []datanode.DataNode
-	group := vrt.Choice("group", 4)
+	group := vrt.Choice("group", 6)
 	switch group {
 	case 0: // strings needing escaping, booleans, empty leaves
 		kids = append(kids, leafNode("s", []string{"plain", "q\"uo\\te\n", "é世"}[vrt.Choice("s", 3)]))
@@ -108,10 +135,27 @@ func VerifH_C19_RoundTrip() {
 			kids = append(kids, datanode.CreateDataNode("l", es, nil))
 		}
 		kids = append(kids, leafNode("s", "x"))
+	case 4: // identityrefs (own and foreign module), union members
+		kids = append(kids, leafNode("idr", []string{"local-id", "m2:remote-id"}[vrt.Choice("idr", 2)]))
+		kids = append(kids, leafNode("un", []string{"7", "local-id", "m2:remote-id", "free text"}[vrt.Choice("un", 4)]))
+	case 5: // nodes of an augmenting module inside (module-name stack of the RFC 7951 writer), nesting
+		var ext []datanode.DataNode
+		if vrt.Bool("ext.x") {
+			ext = append(ext, leafNode("x", "<&>"))
+		}
+		ext = append(ext, leafNode("idr2", []string{"m:local-id", "remote-id"}[vrt.Choice("idr2", 2)]))
+		if vrt.Bool("ext.deep") {
+			ext = append(ext, datanode.CreateDataNode("deep", []datanode.DataNode{leafNode("y", "65535")}, nil))
+		}
+		kids = append(kids, datanode.CreateDataNode("ext", ext, nil))
+		kids = append(kids, datanode.CreateDataNode("inner", []datanode.DataNode{leafNode("x", "-128")}, nil))
+		if vrt.Bool("sl") {
+			kids = append(kids, datanode.CreateDataNode("sl", nil, []string{"b", "a", "b c"}))
+		}
 	}
 	tree := datanode.CreateDataNode("root", []datanode.DataNode{datanode.CreateDataNode("top", kids, nil)}, nil)
 	want := c19Canon(tree)
-	enc := vrt.Choice("encoding", 2)
+	enc := vrt.Choice("encoding", vrt.Param("encodings", 3))
 	var bytes []byte
 	var back datanode.DataNode
 	var derr error
@@ -119,9 +163,12 @@ func VerifH_C19_RoundTrip() {
 		if enc == 0 {
 			bytes = ToRFC7951(ms, tree)
 			back, derr = NewUnmarshaller(RFC7951).SetValidation(schema.DontValidate).Unmarshal(ms, bytes)
-		} else {
+		} else if enc == 1 {
 			bytes = ToJSON(ms, tree)
 			back, derr = NewUnmarshaller(JSON).SetValidation(schema.DontValidate).Unmarshal(ms, bytes)
+		} else {
+			bytes = ToXML(ms, tree)
+			back, derr = NewUnmarshaller(XML).SetValidation(schema.DontValidate).Unmarshal(ms, bytes)
 		}
 	})
 	vrt.Reach("c19.roundtrip.group" + strconv.Itoa(group))
